@@ -182,6 +182,19 @@ def run(ctx) -> list[Inst]:
                         and isinstance(n.value.args[0], ast.Name) and n.value.args[0].id == selfn:
                     ctor, copied, shallow_start = n.value, n.targets[0].id, n
                     break
+        replace_kw = {}
+        if ctor is None:
+            # `x = dataclasses.replace(self, f=..)`: a shallow copy too, except for the fields named in the call
+            for n in own_nodes(f.node):
+                if isinstance(n, ast.Assign) and len(n.targets) == 1 and isinstance(n.targets[0], ast.Name) \
+                        and isinstance(n.value, ast.Call) and n.value.args \
+                        and isinstance(n.value.args[0], ast.Name) and n.value.args[0].id == selfn \
+                        and ((isinstance(n.value.func, ast.Name) and n.value.func.id == 'replace') or
+                             (isinstance(n.value.func, ast.Attribute) and n.value.func.attr == 'replace'
+                              and isinstance(n.value.func.value, ast.Name) and n.value.func.value.id == 'dataclasses')):
+                    ctor, copied, shallow_start = n.value, n.targets[0].id, n
+                    replace_kw = {k.arg: k.value for k in n.value.keywords if k.arg}
+                    break
         if ctor is None:
             insts.append(Inst(RULE, f.short, 'constructor call of the copy', 'unproven',
                               msg='no `x = %s(...)` found' % cname, file=rel, line=f.node.lineno,
@@ -196,6 +209,8 @@ def run(ctx) -> list[Inst]:
                 ast.copy_location(e_, shallow_start)
                 ast.fix_missing_locations(e_)
                 values[fi.name] = (e_, shallow_start)
+            for k_, v_ in replace_kw.items():
+                values[k_] = (v_, shallow_start)
         elif c.is_dataclass:
             order = [fi.name for fi in c.fields.values() if fi.origin == 'dataclass']
             for i, a in enumerate(ctor.args):
@@ -225,11 +240,13 @@ def run(ctx) -> list[Inst]:
         # later assignments copied.F = ...
         appended_in_loop = {}   # field -> (loop iter field, value expr)
         mutated_fields = set()  # copied.F.<method>(..) / copied.F[..] = ..  in a form not interpreted below
+        alt_values = {}         # field -> every (value, stmt) assigned to copied.F (branches)
         for n in own_nodes(f.node):
             if isinstance(n, ast.Assign):
                 for tg in n.targets:
                     if isinstance(tg, ast.Attribute) and isinstance(tg.value, ast.Name) and tg.value.id == copied:
                         values[tg.attr] = (n.value, n)
+                        alt_values.setdefault(tg.attr, []).append((n.value, n))
                     if isinstance(tg, ast.Subscript) and isinstance(tg.value, ast.Attribute) \
                             and isinstance(tg.value.value, ast.Name) and tg.value.value.id == copied:
                         mutated_fields.add(tg.value.attr)
@@ -268,6 +285,22 @@ def run(ctx) -> list[Inst]:
                                   and arg.args[1].id == memon)
                             appended_in_loop[b.func.value.attr] = (itc[1], ok, b)
         info[cname] = (f, values, selfn, memon, copied)
+        # a branch that takes the field from ANOTHER field of the copy (copied.F = copied.G[..]) instead of from
+        # self.F: the copy's F then follows G, not the original's F
+        for F_, alts in alt_values.items():
+            for (v_, st_) in alts:
+                mentions_copy = any(isinstance(x, ast.Name) and x.id == copied for x in ast.walk(v_))
+                from_self = any(isinstance(x, ast.Attribute) and isinstance(x.value, ast.Name) and x.value.id == selfn
+                                and x.attr == F_ for x in ast.walk(v_))
+                if mentions_copy and not from_self:
+                    src = next((x.attr for x in ast.walk(v_) if isinstance(x, ast.Attribute) and isinstance(x.value, ast.Name)
+                                and x.value.id == copied), '?')
+                    insts.append(Inst(
+                        RULE, f.short, f'{cname}.{F_} in the copy is taken from the original\'s {F_}', 'violation',
+                        msg=(f"'{stmt_text(st_, 80)}' fills {F_} of the copy from the copy's own {src}, not from "
+                             f"{selfn}.{F_}: when {selfn}.{F_} was re-bound after the object was built (node.ttc = ..., "
+                             f"node.tags = ...) the copy silently reverts to what {src} holds"),
+                        file=rel, line=st_.lineno, props=PROPS))
         # ---------------------------------------------------------------- (a) (b) (d)
         seen_exprs = {}
         for fi in fields:
